@@ -107,12 +107,35 @@ Theorem C47_retry_next_event : forall has_cfg env tolerate s cfg dir fails s' r 
 Proof. intros. eapply retry_next; eauto. Qed.
 Print Assumptions C47_retry_next_event.
 
+(* apply reads the config file twice (hashFile, then normalize). With the hash
+   read FIRST, an edit that falls between the two reads leaves the old hash
+   recorded and the new content written: the next undisturbed pass sees a change
+   and reloads the final content. *)
+Theorem C47_edit_between_reads : forall env tolerate s old new dir f s1 r1 f2 s2 r2,
+  old <> new -> NoDup (map fst dir) ->
+  apply2 true env tolerate s (Some old) (Some new) dir f false = (s1, r1) -> r_err r1 = false ->
+  apply true env tolerate s1 (Some new) dir f2 false = (s2, r2) -> r_err r2 = false ->
+  r_tried r2 = true /\ r_succeeded r2 = true /\ out_cfg s2 = expand env tolerate new.
+Proof. exact hash_then_normalize. Qed.
+Print Assumptions C47_edit_between_reads.
+
+(* With the normalize read first this is false: the reload loads the old
+   content under the new hash and no later pass reloads. *)
+Theorem C47_normalize_first_refuted :
+  let '(s1, r1) := apply2 true w_env true init (Some w_new) (Some w_old) [] 0 false in
+  let '(s2, r2) := apply true w_env true s1 (Some w_new) [] 0 false in
+  r_succeeded r1 = true /\ out_cfg s1 = Some w_old
+  /\ r_err r2 = false /\ r_tried r2 = false /\ out_cfg s2 = Some w_new.
+Proof. exact normalize_then_hash_refuted. Qed.
+Print Assumptions C47_normalize_first_refuted.
+
 (* Tie T: the reload decision and the removal guard of apply, and the shape of
    the endless loop of Watch (its only return is guarded by ctx.Err() != nil;
-   r.apply is called on every other way through the select), are those of the
-   source. *)
-Theorem C47_decision_source : decision_ok = true /\ watch_shape_ok = true.
-Proof. exact (conj decision_fact watch_shape). Qed.
+   r.apply is called on every other way through the select), and the order of
+   the two reads of the config file (hashFile before normalize), are those of
+   the source. *)
+Theorem C47_decision_source : decision_ok = true /\ watch_shape_ok = true /\ reads_order_ok = true.
+Proof. exact (conj decision_fact (conj watch_shape reads_order)). Qed.
 Print Assumptions C47_decision_source.
 
 (* Non-vacuity: first apply of a fresh reloader: the variable is substituted,
